@@ -548,11 +548,376 @@ def summarize(r):
     return r
 
 
+# ---------------------------------------------------------------------------------- value cases
+def walk_specs(c):
+    """all expression specs of a case (for the Beta table)"""
+    out = []
+
+    def pv(p):
+        if p and 'e' in p:
+            out.append(p['e'])
+
+    for k, v in c.get('util', []):
+        pv(v)
+    for k, v in c.get('av') or []:
+        pv(v)
+    for k, v in c.get('log_gi') or []:
+        pv(v)
+    pv(c.get('mu'))
+    for key in ('nests', 'nests_alt'):
+        for n in c.get(key) or []:
+            pv(n[0])
+            if n[1] and isinstance(n[1][0], list):
+                for k, a in n[1]:
+                    pv(a)
+    if 'x' in c:
+        out.append(c['x'])
+    pv(c.get('tau'))
+    return out
+
+
+def beta_value(rng, name):
+    if name.startswith('MU') and name.endswith('_t'):
+        return rng.choice([-1, -0.5, 0, 0.5, 1])
+    if name == 'MU':
+        return rng.choice([0.5, 0.75, 1, 1.25, 1.5, 2])
+    if name.startswith('MU'):
+        return rng.choice([1, 1.25, 1.5, 2, 2.5, 3, 4])
+    if name.startswith('alpha'):
+        return rng.choice([0.125, 0.25, 0.5, 0.75, 1])
+    if name.startswith('g'):
+        return rng.choice([0.25, 0.5, 1, -0.5])
+    if name.startswith('tau') or name.startswith('t_'):
+        return rng.choice([-1, -0.5, 0, 0.5, 1])
+    return rng.choice([-1.5, -1, -0.5, -0.25, 0, 0.25, 0.5, 1, 1.5])
+
+
+def set_betas(rng, c, force=None):
+    """one value and one status per Beta name; rewrites the specs in place; returns the table"""
+    table, status = {}, {}
+
+    def go(s):
+        if s[0] == 'Beta':
+            nm = s[1]
+            if nm not in table:
+                table[nm] = (force or {}).get(nm, beta_value(rng, nm))
+                status[nm] = s[3]
+            s[2] = table[nm]
+            s[3] = status[nm]
+        elif s[0] == 'Bin':
+            go(s[2]), go(s[3])
+        elif s[0] == 'Un':
+            go(s[2])
+
+    for s in walk_specs(c):
+        go(s)
+    return table
+
+
+def spec_vars(s, acc):
+    if s[0] == 'Var':
+        acc.add(s[1])
+    elif s[0] == 'Bin':
+        spec_vars(s[2], acc), spec_vars(s[3], acc)
+    elif s[0] == 'Un':
+        spec_vars(s[2], acc)
+    return acc
+
+
+def gen_rows(rng, c, n):
+    names = set()
+    for s in walk_specs(c):
+        spec_vars(s, names)
+    rows = []
+    for _ in range(n):
+        row = {}
+        for v in sorted(names):
+            if v.startswith('av'):
+                row[v] = float(rng.random() < 0.75)
+            elif v == 'sp':
+                row[v] = float(rng.random() < 0.85)
+            elif v.startswith('y'):
+                row[v] = rng.choice([0.25, 0.5, 1, 1.5, 2, 3])
+            elif v == 'CHOICE':
+                row[v] = 1.0
+            else:
+                row[v] = rng.randint(-16, 16) / 8
+        rows.append(row)
+    return rows
+
+
+SMALL_ALTS = dict(lo=2, hi=5)
+
+
+def value_case_nested(rng, mu=False):
+    while True:
+        c = g_nested_case(rng, 'lognested_mev_mu' if mu else 'lognested')
+        if len(c['util']) >= 2:
+            break
+    c.pop('fault', None)
+    c['choice'] = None
+    c['util'] = [[k, v if 'e' in v else {'e': ['Num', v['n']]}] for k, v in c['util']]
+    return c
+
+
+def value_case_cnl(rng, mu=False):
+    while True:
+        c = g_cnl_case(rng, 'logcnlmu' if mu else 'logcnl')
+        ok = len(c['util']) >= 2 and c['nests']
+        # every alternative that is not alone needs a positive alpha somewhere
+        pos = set()
+        for p, al in c['nests']:
+            for k, a in al:
+                if not ('n' in a and a['n'] == 0):
+                    pos.add(k)
+        members = {k for p, al in c['nests'] for k, a in al}
+        if ok and members <= pos:
+            break
+    c.pop('fault', None)
+    c['choice'] = None
+    return c
+
+
+def finite(v):
+    return isinstance(v, (int, float)) and not isinstance(v, bool) and math.isfinite(v)
+
+
+TOL_SUM = Fraction(1, 10 ** 9)
+TOL_RANGE = Fraction(1, 10 ** 12)
+TOL_PAIR = Fraction(1, 10 ** 9)
+
+
+def close(a, b, rel=TOL_PAIR, abs_=Fraction(1, 10 ** 300)):
+    fa, fb = Fraction(a), Fraction(b)
+    return abs(fa - fb) <= rel * max(abs(fa), abs(fb)) + abs_
+
+
+def availability(res, alts, r):
+    AV = res.get('AV', {}).get('alts', {})
+    out = {}
+    for k in alts:
+        v = AV.get(str(k))
+        if not isinstance(v, list) or not finite(v[r]):
+            return None
+        out[k] = Fraction(v[r]) != 0
+    return out
+
+
+def oracle_distribution(c, res, r, Pname='P', logname='logP', shiftname='Ps'):
+    """direct statement of C05 on the implementation's output for row r; returns list of (key, what, detail)"""
+    alts = [k for k, _ in c['util']]
+    bad = []
+    av = availability(res, alts, r)
+    if av is None or not any(av.values()):
+        return None
+    P = res.get(Pname, {})
+    if 'exc' in P:
+        return [('exception', f'{Pname} raised', P['exc'])]
+    vals = {}
+    for k in alts:
+        v = P['alts'].get(str(k))
+        if not isinstance(v, list):
+            bad.append(('exception', f'probability of alternative {k} raised', v))
+            continue
+        vals[k] = v[r]
+    if bad:
+        return bad
+    for k, v in vals.items():
+        if not finite(v):
+            bad.append(('non-finite', f'probability of alternative {k} is {v}', vals))
+    if bad:
+        return bad
+    total = sum(Fraction(v) for v in vals.values())
+    if abs(total - 1) > TOL_SUM:
+        bad.append(('sum', f'probabilities sum to {float(total)!r}', vals))
+    for k, v in vals.items():
+        f = Fraction(v)
+        if f < -TOL_RANGE or f > 1 + TOL_RANGE:
+            bad.append(('range', f'probability of alternative {k} = {v!r} outside [0,1]', vals))
+        if not av[k] and f != 0:
+            bad.append(('unavailable', f'unavailable alternative {k} has probability {v!r}', vals))
+    L = res.get(logname)
+    if L is not None:
+        if 'exc' in L:
+            bad.append(('exception', f'{logname} raised', L['exc']))
+        else:
+            for k in alts:
+                lv = L['alts'].get(str(k))
+                lv = lv[r] if isinstance(lv, list) else lv
+                if av[k]:
+                    if not finite(lv):
+                        bad.append(('log', f'log-probability of available alternative {k} is {lv}', vals[k]))
+                    elif not close(math.exp(lv), vals[k], abs_=Fraction(1, 10 ** 15)):
+                        bad.append(('log', f'exp(logP)={math.exp(lv)!r} but P={vals[k]!r} (alternative {k})', lv))
+                elif lv != 'minf':
+                    bad.append(('log', f'log-probability of unavailable alternative {k} is {lv!r}, not -inf', vals[k]))
+    S = res.get(shiftname)
+    if S is not None:
+        if 'exc' in S:
+            bad.append(('exception', f'{shiftname} raised', S['exc']))
+        else:
+            for k in alts:
+                sv = S['alts'].get(str(k))
+                sv = sv[r] if isinstance(sv, list) else sv
+                if not finite(sv) or abs(Fraction(sv) - Fraction(vals[k])) > TOL_SUM:
+                    bad.append(('shift', f'P(V+c)={sv!r} but P(V)={vals[k]!r} (alternative {k}, c={c.get("shift")})', None))
+    return bad
+
+
+def oracle_ordered(c, res, r):
+    P = res.get('P', {})
+    if 'exc' in P:
+        return [('exception', 'ordered model raised', P['exc'])]
+    vals = {}
+    for k in c['vals']:
+        v = P['alts'].get(str(k))
+        if not isinstance(v, list) or not finite(v[r]):
+            return [('non-finite', f'probability of category {k} is {v}', None)]
+        vals[k] = v[r]
+    bad = []
+    total = sum(Fraction(v) for v in vals.values())
+    if abs(total - 1) > TOL_SUM:
+        bad.append(('sum', f'category probabilities sum to {float(total)!r}', vals))
+    for k, v in vals.items():
+        if Fraction(v) < -TOL_RANGE or Fraction(v) > 1 + TOL_RANGE:
+            bad.append(('range', f'probability of category {k} = {v!r} outside [0,1]', vals))
+    return bad
+
+
+FAMILY_FN = {'logit': ('logit', 'loglogit'), 'mev': ('mev', 'logmev'), 'nested': ('nested', 'lognested'),
+             'nested_mu': ('nested_mev_mu', 'lognested_mev_mu'), 'cnl': ('cnl', 'logcnl'),
+             'cnlmu': ('cnlmu', 'logcnlmu')}
+
+
+def gen_value_cases(rng, n):
+    cases = []
+    for _ in range(n):
+        fam = rng.choice(['logit', 'mev', 'nested', 'nested', 'nested_mu', 'cnl', 'cnl', 'cnlmu',
+                          'ordered_logit', 'ordered_probit'])
+        if fam in ('ordered_logit', 'ordered_probit'):
+            c = g_ordered_case(rng, fam)
+            while len(c['vals']) < 2 or len(set(c['vals'])) != len(c['vals']) or 'e' not in c['tau'] \
+                    or c['tau']['e'][0] != 'Beta':
+                c = g_ordered_case(rng, fam)
+            c['family'] = fam
+            tb = set_betas(rng, c)
+            tau = c['tau']['e'][1]
+            for k in c['vals'][1:-1]:
+                tb[f'{tau}_diff_{k}'] = rng.choice([0, 0.25, 0.5, 1, 2])
+            c['betas'] = tb
+            c['rows'] = gen_rows(rng, c, 3)
+            c['calls'] = [{'name': 'P', 'fn': fam, 'x': c['x'], 'vals': c['vals'], 'tau': c['tau'], 'trees': True}]
+            cases.append(c)
+            continue
+        if fam in ('logit', 'mev'):
+            c = g_logit_case(rng, 'mev' if fam == 'mev' else 'logit')
+            while len(c['util']) < 2 or (fam == 'mev' and len(c['log_gi']) != len(c['util'])):
+                c = g_logit_case(rng, 'mev' if fam == 'mev' else 'logit')
+        elif fam in ('nested', 'nested_mu'):
+            c = value_case_nested(rng, fam == 'nested_mu')
+        else:
+            c = value_case_cnl(rng, fam == 'cnlmu')
+        c['family'] = fam
+        c.pop('syntaxes', None)
+        c['choice'] = None
+        c['betas'] = set_betas(rng, c)
+        c['rows'] = gen_rows(rng, c, 3)
+        c['shift'] = rng.choice([-3, -1.5, 0.5, 1, 2.25, 5])
+        pf, lf = FAMILY_FN[fam]
+        syn = rng.choice(['legacy', 'objects'])
+        calls = [{'name': 'AV', 'fn': 'AV'}, {'name': 'V', 'fn': 'V'},
+                 {'name': 'P', 'fn': pf, 'trees': True, 'syntax': syn}, {'name': 'logP', 'fn': lf, 'syntax': syn}]
+        if fam != 'mev':
+            calls.append({'name': 'Ps', 'fn': pf, 'shift': c['shift'], 'syntax': syn})
+        c['calls'] = calls
+        cases.append(c)
+    return cases
+
+
+def run_value_cases(ctx, cases):
+    chunks = [cases[i::16] for i in range(16)]
+    chunks = [ch for ch in chunks if ch]
+    outs = ctx.impl_parallel('c05_values.py', chunks)
+    results = [None] * len(cases)
+    for ci, ch in enumerate(chunks):
+        for j, r in enumerate(outs[ci]):
+            results[ci + 16 * j] = r
+    return results
+
+
+def env_of(c, r):
+    return {'beta': c['betas'], 'var': c['rows'][r]}
+
+
+def stream_prob_values(ctx, n_quick=130, n_thorough=1500):
+    st = ctx.stream('prob_values', 'logit / MEV with user ln G_i / nested / nested+mu / cnl / cnl+mu / ordered logit '
+                    '/ ordered probit on generated (V, av, nests, mu, Beta values) and 3 random rows each; engine '
+                    '(get_value_c) probabilities of ALL alternatives: sum in [1 +- 1e-9], each in [0,1], exactly 0 when '
+                    'unavailable, exp(logP) = P, P(V+c) = P(V) (1e-9); plus engine value vs proved interval enclosure '
+                    'of evalX of the same tree (lib/values.py) on the first row; non-trivial = row with >= 2 '
+                    'alternatives of which >= 1 available')
+    rng = ctx.sub_rng('prob_values')
+    cases = [d['case'] for p, d in load_corpus('C05') if d.get('stream') == 'prob_values']
+    cases += gen_value_cases(rng, ctx.n(n_quick, n_thorough))
+    results = run_value_cases(ctx, cases)
+    vcases, vmeta = [], []
+    skipped_rows = 0
+    for ci, (c, res) in enumerate(zip(cases, results)):
+        if 'exc' in res:
+            st.record({'family': c['family'], 'exc': res['exc']}, nontrivial=False)
+            ctx.violation(f'C05/prob_values/{c["family"]}/harness', 'the case could not be evaluated', c, None, res)
+            continue
+        for r in range(len(c['rows'])):
+            ordered = c['family'].startswith('ordered')
+            bad = oracle_ordered(c, res, r) if ordered else oracle_distribution(c, res, r)
+            if bad is None:
+                skipped_rows += 1
+                st.record({'case': ci, 'row': r, 'skipped': 'no available alternative'}, nontrivial=False)
+                continue
+            st.record({'family': c['family'], 'util': c.get('util'), 'av': c.get('av'), 'nests': c.get('nests'),
+                       'mu': c.get('mu'), 'row': c['rows'][r], 'betas': c['betas'], 'vals': c.get('vals')},
+                      nontrivial=True)
+            for kind, what, detail in bad:
+                ctx.violation(f'C05/prob_values/{c["family"]}/{kind}', what,
+                              {'case': c, 'row_index': r, 'row': c['rows'][r]},
+                              'a probability distribution over the available alternatives', detail,
+                              how='PYTHONPATH=/repo/src /venv/bin/python /verif/lib/impl/c05_values.py < [case]')
+        # enclosure check on row 0
+        P = res.get('P', {})
+        if 'trees' in P and ci % ctx.n(2, 3) == 0:
+            for k, tree in P['trees'].items():
+                v = P['alts'].get(k)
+                if isinstance(v, list):
+                    vcases.append({'expr': tree, 'env': env_of(c, 0), 'observed': v[0] if finite(v[0]) else 'error'})
+                    vmeta.append((ci, k))
+    st.extra['rows_without_available_alternative'] = skipped_rows
+    if vcases:
+        try:
+            from values import check_values
+            verdicts = check_values(ctx, 'c05pv', vcases, relbits=-30, batch=20, phi='PhiI_none')
+        except Exception as ex:  # noqa
+            verdicts = None
+            st.extra['enclosure_check'] = f'not run: {type(ex).__name__}: {str(ex)[:300]}'
+        if verdicts is not None:
+            cnt = {'agree': 0, 'differ': 0, 'undecided': 0}
+            for (ci, k), (v, info) in zip(vmeta, verdicts):
+                cnt[v] += 1
+                if v == 'differ':
+                    st.disagree({'case': cases[ci], 'alternative': k, 'row': cases[ci]['rows'][0]},
+                                info, 'engine value outside the enclosure of evalX')
+            st.extra['enclosure_check'] = cnt
+    if st.disagreements:
+        ctx.stream_broken('prob_values', f'{len(st.disagreements)} engine values outside the proved enclosure, first: '
+                          + json.dumps(st.disagreements[0], default=str)[:1500])
+    return cases, results
+
+
 def run(ctx):
     ctx.assumptions += ASSUME
     ctx.trusted += TRUSTED
     ctx.build()
     stream_build(ctx)
+    stream_prob_values(ctx)
 
 
 def gen_all(ctx):
